@@ -138,7 +138,7 @@ func Stateless(p *core.Prog, r *core.Report) {
 	var eph []string
 	for T, e := range ephemeral {
 		if e {
-			eph = append(eph, T.Obj().Name())
+			eph = append(eph, core.KnownTypeName(T))
 		}
 	}
 	sortStrings(eph)
@@ -265,14 +265,14 @@ func Stateless(p *core.Prog, r *core.Report) {
 							return
 						}
 					}
-					writes = append(writes, pending{f, i, obj, T, "store to " + T.Obj().Name() + "." + fld, false})
+					writes = append(writes, pending{f, i, obj, T, "store to " + core.KnownTypeName(T) + "." + fld, false})
 				}
 			case *ssa.MapUpdate:
 				if ld, ok := x.Map.(*ssa.UnOp); ok && ld.Op == token.MUL {
 					if fa, ok := ld.X.(*ssa.FieldAddr); ok {
 						if T := isVal(fa.X.Type()); T != nil {
 							_, fn, _ := core.FieldOf(fa)
-							writes = append(writes, pending{f, i, fa.X, T, "map update of " + T.Obj().Name() + "." + fn, false})
+							writes = append(writes, pending{f, i, fa.X, T, "map update of " + core.KnownTypeName(T) + "." + fn, false})
 						}
 					}
 				}
@@ -370,11 +370,11 @@ func Stateless(p *core.Prog, r *core.Report) {
 		case "fresh":
 			r.OK(rule, key, pos, "(ii) object constructed in this activation")
 		case "slot-of-ephemeral":
-			r.OK(rule, key, pos, "(iii) child of the ephemeral type "+par.Obj().Name()+" (every instance is created, run once, dropped)")
+			r.OK(rule, key, pos, "(iii) child of the ephemeral type "+core.KnownTypeName(par)+" (every instance is created, run once, dropped)")
 		case "receiver":
 			T := isVal(w.f.Signature.Recv().Type())
 			if T != nil && ephemeral[T] {
-				r.OK(rule, key, pos, "(iii) receiver type "+T.Obj().Name()+" is ephemeral")
+				r.OK(rule, key, pos, "(iii) receiver type "+core.KnownTypeName(T)+" is ephemeral")
 			} else if protocol[w.f.Name()] {
 				r.Bad(rule, key, pos, "a validator writes to itself while validating, also when recycling is off: a long-lived validator keeps state between calls (and two goroutines sharing it race)")
 			} else {
@@ -383,7 +383,7 @@ func Stateless(p *core.Prog, r *core.Report) {
 		case "receiver-of-parent":
 			r.Bad(rule, key, pos, "a closure of a validator method writes to the validator outside the recycle guard")
 		case "slot":
-			r.Bad(rule, key, pos, "a child validator held in a slot of a long-lived parent ("+par.Obj().Name()+") is modified during validation without the recycle guard: the next call (or a concurrent one) sees the modification")
+			r.Bad(rule, key, pos, "a child validator held in a slot of a long-lived parent ("+core.KnownTypeName(par)+") is modified during validation without the recycle guard: the next call (or a concurrent one) sees the modification")
 		default:
 			r.Unk(rule, key, pos, "cannot establish that the written validator is private to this activation")
 		}
